@@ -395,6 +395,50 @@ Definition get_scores (d : data) (fields : list field) (k : nat) (ax : axis) (ai
     end
   end.
 
+(* Data.get_scores for axis = All: whole arrays (flattened row-major here), invalid cells set to
+   NaN rather than removed; an array without any time is replaced by the single NaN *)
+Definition field_values_all (d : data) (f : field) (k : nat) (clim : option (list (option V)))
+  : result (list (option V)) :=
+  match get_score d f k with
+  | Error e => Error e
+  | OK c =>
+      let c1 := match f with
+                | FObs => map (map (map (mask_obs_range (d_obs_range d)))) c
+                | _ => c
+                end in
+      let flat := flatten3 c1 in
+      OK (match clim with
+          | Some cl => if is_obs_or_fcst f
+                       then map (fun p => anomaly (d_clim_divide d) (fst p) (snd p)) (combine flat cl)
+                       else flat
+          | None => flat
+          end)
+  end.
+
+Definition get_scores_all (d : data) (fields : list field) (k : nat) : result (list (list (option V))) :=
+  if negb (Nat.ltb k (num_inputs d)) then Error E_input_index else
+  let do_clim := d_has_clim d && existsb is_obs_or_fcst fields in
+  let climr :=
+    if do_clim then
+      match get_score d FFcst (length (d_inputs d) - 1) with
+      | Error e => Error e
+      | OK c => OK (Some (flatten3 c))
+      end
+    else OK None in
+  match climr with
+  | Error e => Error e
+  | OK clim =>
+    match collect (map (fun f => field_values_all d f k clim) fields) with
+    | Error e => Error e
+    | OK cols =>
+        let mask := valid_mask cols in
+        match d_times d with
+        | [] => OK (map (fun _ => [None]) cols)
+        | _ => OK (map (fun col => map (fun p : bool * option V => if fst p then snd p else None) (combine mask col)) cols)
+        end
+    end
+  end.
+
 End D.
 
 Arguments OK {A}. Arguments Error {A}.
